@@ -27,6 +27,8 @@ Diverge(e) ==
         ELSE (IF \A w \in DOMAIN e.post : BigEq(r.post[w], e.post[w]) THEN {} ELSE D("balances"))
              \cup (IF e.route = "eth" /\ r.ok /\ \E i \in Idx(e.msgs) : ~BigEq(r.used[i], e.msgs[i].resp.gasUsed) THEN D("gasUsed") ELSE {})
              \cup (IF e.route = "eth" /\ r.ok /\ \E i \in Idx(e.msgs) : r.failed[i] # e.msgs[i].resp.failed THEN D("vm outcome") ELSE {})
+             \* the twin measurement (same message on a chain with multiplier 0) against the gas schedule
+             \cup (IF e.route = "eth" /\ \E i \in Idx(e.msgs) : e.msgs[i].twinGas # "-1" /\ ~BigEq(e.msgs[i].twinGas, MEvm(e.msgs[i]).gas) THEN D("twin gas") ELSE {})
 
 TraceInit == l = 1 /\ viol = {} /\ div = {} /\ nacc = 0
 
